@@ -824,6 +824,34 @@ class C20(Property):
             rad = TR.get_radii()
             if not np.array_equal(rad, np.array([float(r["radius"]) for r in recs])):
                 fail("radii", "get_radii() differs from the member radii")
+            # smoothed trajectories: a Gaussian average over neighbouring time points (kernel cut at 4 sigma, end points repeated),
+            # computed here from this definition; the raw values must not change by asking for it
+            if n >= 2:
+                for sigma in (0.6, 1.7):
+                    half = int(4.0 * sigma + 0.5)
+                    ks = np.arange(-half, half + 1)
+                    w = np.exp(-0.5 * (ks / sigma) ** 2)
+                    w /= w.sum()
+                    idxs = np.clip(np.arange(n)[:, None] + ks[None, :], 0, n - 1)
+                    exp_s = np.einsum("ik,ik...->i...", np.broadcast_to(w, idxs.shape), exp[idxs])
+                    got_s = TR.get_trajectory(smoothing=sigma)
+                    sc = float(np.abs(exp).max()) + 1e-300
+                    if got_s.shape != exp_s.shape or not bool(np.all(np.abs(got_s - exp_s) <= 1e-12 * sc)):
+                        fail("trajectory-smoothed", f"get_trajectory(smoothing={sigma}) differs from the Gaussian average of the member positions")
+                    exp_r = (w[None, :] * np.array([float(r["radius"]) for r in recs])[idxs]).sum(axis=1)
+                    got_r = TR.get_radii(smoothing=sigma)
+                    if got_r.shape != exp_r.shape or not bool(np.all(np.abs(got_r - exp_r) <= 1e-12 * (float(np.abs(exp_r).max()) + 1e-300))):
+                        fail("radii-smoothed", f"get_radii(smoothing={sigma}) differs from the Gaussian average of the member radii")
+                again = TR.get_trajectory()
+                if again.tobytes() != exp.tobytes():
+                    fail("trajectory-changed-by-smoothing", "after asking for a smoothed trajectory the plain trajectory differs")
+            # first / last member, (time, droplet) pairs and iteration follow the member order
+            f_, l_ = TR.first, TR.last
+            if enc(f_) != Me[0] or enc(l_) != Me[-1]:
+                fail("first-last", "first / last are not the first / last member")
+            pairs = list(TR.items())
+            if [t for t, _ in pairs] != list(Mt) or [enc(d) for _, d in pairs] != list(Me):
+                fail("items", "items() does not pair the times with the members in order")
             # the caller owns the returned arrays: writing into them must not leak into the track (checked after the step)
             for arr_out in (traj, rad):
                 try:
